@@ -756,3 +756,292 @@ Example C01_qframes_example :
    match r with Ok qs => Some (map (abs1 dec_std st') qs) | _ => None end)
   = match Aggregate.qframes QFramesExamples.G0 with Ok fs => Some (map Some fs) | _ => None end.
 Proof. exact QFramesExamples.qframes_example. Qed.
+
+(* 11. (wave 6) The WHOLE clause tree of QFrame.Filter (Proofs/HeapRefine3.v).
+       (a) The two facts the induction over the tree was missing: the indexes built by index.Filter, orFrames and
+           Not hold non-negative entries when their inputs do (the merges compare entries as integers, the L0 model
+           compares row numbers), and the link of a leaf is stable when the store grows (the store only gains
+           locations; the by-name map and the column arrays of the leaf keep their content). *)
+Require Import QF.Proofs.HeapRefine3.
+
+Theorem C01_index_filter_nonneg env t n st ix b res n' st' :
+  store_fresh t n st -> in_bounds st ix -> nonneg (seg_of st ix) ->
+  run env t (index_filter ix b) n st = (res, n', st') ->
+  match res with Ok r => nonneg (seg_of st' r) | _ => True end.
+Proof. exact (index_filter_nn env t n st ix b res n' st'). Qed.
+Print Assumptions C01_index_filter_nonneg.
+
+Theorem C01_or_frames_nonneg env t n st orig l rhs q' n' st' :
+  store_fresh t n st -> in_bounds st (q_idx orig) ->
+  nonneg (seg_of st (q_idx orig)) -> nonneg (seg_of st (q_idx l)) -> nonneg (seg_of st (q_idx rhs)) ->
+  run env t (or_frames orig (Some l) rhs) n st = (Ok q', n', st') ->
+  nonneg (seg_of st' (q_idx q')) /\ (q_map orig = q_map l -> q_map orig = q_map rhs -> q_map q' = q_map orig).
+Proof. exact (or_frames_nn env t n st orig l rhs q' n' st'). Qed.
+Print Assumptions C01_or_frames_nonneg.
+
+Theorem C01_not_index_nonneg env t n st qf nq q' n' st' :
+  store_fresh t n st -> in_bounds st (q_idx qf) -> nonneg (seg_of st (q_idx qf)) ->
+  run env t (not_index qf nq) n st = (Ok q', n', st') ->
+  nonneg (seg_of st' (q_idx q')) /\ q_map q' = q_map qf.
+Proof. exact (not_index_nn env t n st qf nq q' n' st'). Qed.
+Print Assumptions C01_not_index_nonneg.
+
+Theorem C01_leaf_link_keeps env mt st0 st m f hl l :
+  keeps st0 st -> Forall (fun e => parts_in_bounds st0 (snd e)) (map_of st0 m) ->
+  (forall l, m = Some l -> lookup st0 l <> None) ->
+  leaf_link env mt st0 m f hl l -> leaf_link env mt st m f hl l.
+Proof. exact (leaf_link_keeps env mt st0 st m f hl l). Qed.
+Print Assumptions C01_leaf_link_keeps.
+
+(*     (b) The induction over the tree, parametric in the relation LL that links heap leaves to L0 leaves (crel LL is
+           clause_rel with the link left abstract).  ALL it asks of the leaves (leaves_ok) is that a batch of linked
+           leaves is refined by QFrame.filter on every later store, for every struct copy of the receiver whose index
+           is a sub-index of the rows.  And chains narrow the index clause by clause; Or batches consecutive leaves
+           into one QFrame.filter call, flushes the batch before every other member and at the end and merges with
+           orFrames on the ORIGINAL frame; Not of a leaf toggles the leaf, Not of anything else complements the index;
+           a frame that already carries an error is returned unchanged by every clause; empty And / Or set the error. *)
+Theorem C01_op_filter_refines env dec mt st0 m f (LL : leaf -> Filter.leaf -> Prop) t n qf c cl :
+  Frame.ferr f = false -> leaves_ok env dec mt st0 m f LL ->
+  ref_ok dec st0 qf -> abs1 dec st0 qf = Some f -> q_map qf = m -> store_fresh t n st0 ->
+  nonneg (seg_of st0 (q_idx qf)) -> crel LL c cl ->
+  exists res n' st',
+    run env t (op_filter c qf) n st0 = (res, n', st') /\ keeps st0 st' /\ store_fresh t n' st' /\
+    match res with
+    | Ok qf' => ref_ok dec st' qf' /\ exists f', Filter.frame_filter mt f cl = Ok f' /\ abs1 dec st' qf' = Some f'
+    | Panic => Filter.frame_filter mt f cl = Panic
+    | Fail => False
+    end.
+Proof. intros Hferr Hleaves. exact (op_filter_refines env dec mt st0 m f LL Hferr Hleaves t n qf c cl). Qed.
+Print Assumptions C01_op_filter_refines.
+
+(*     (c) With the link of wave 5 (leaf_link): the statement left open there is a theorem. *)
+Theorem C01_refines_clause_filter : C01_refines_clause_filter_full_statement.
+Proof. exact refines_clause_filter. Qed.
+Print Assumptions C01_refines_clause_filter.
+
+(*     (d) FilteredApply end to end: no premise about the Filter step is left.  What is asked of the Apply step is
+           the conclusion of C01_refines_apply0 / 1 / 2 for the struct copy with the filtered index (the link between
+           the callback oracle and the L0 function tables is a premise of those theorems). *)
+Theorem C01_refines_filtered_apply_clause env dec mt ut t n st qf f c cl instrs is :
+  ref_ok dec st qf -> abs1 dec st qf = Some f -> store_fresh t n st ->
+  nonneg (seg_of st (q_idx qf)) ->
+  clause_rel env mt st (q_map qf) f c cl ->
+  (forall fq ff n1 st1, keeps st st1 -> store_fresh t n1 st1 -> ref_ok dec st1 fq ->
+     Filter.frame_filter mt f cl = Ok ff -> abs1 dec st1 fq = Some ff -> q_err fq = false ->
+     exists ra n2 st2,
+       run env t (op_apply instrs (with_index qf (q_idx fq))) n1 st1 = (ra, n2, st2) /\ keeps st1 st2 /\
+       match ra with
+       | Ok nq => ref_ok dec st2 nq /\
+                  exists r, Ops.apply ut (Frame.with_ix f (Frame.ix ff)) is = Ok r /\ abs1 dec st2 nq = Some r
+       | Panic => Ops.apply ut (Frame.with_ix f (Frame.ix ff)) is = Panic
+       | Fail => False
+       end) ->
+  exists res n' st',
+    run env t (op_filtered_apply c instrs qf) n st = (res, n', st') /\ keeps st st' /\
+    match res with
+    | Ok q' => ref_ok dec st' q' /\ exists r, Ops.filtered_apply mt ut f cl is = Ok r /\ abs1 dec st' q' = Some r
+    | Panic => Ops.filtered_apply mt ut f cl is = Panic
+    | Fail => False
+    end.
+Proof. exact (refines_filtered_apply_clause env dec mt ut t n st qf f c cl instrs is). Qed.
+Print Assumptions C01_refines_filtered_apply_clause.
+
+(* the premises hold for two trees over the example frame: an And chain with a Not of an Or of a Not of an And, and
+   an Or whose leaf batches are flushed around a Not; both sides computed *)
+Example C01_clause_rel_holds :
+  clause_rel HeapExamples.env0 [] HeapExamples.st0 (q_map HeapExamples.qf0) RefineExamples.f0 ClauseExamples.hc1 ClauseExamples.c1 /\
+  clause_rel HeapExamples.env0 [] HeapExamples.st0 (q_map HeapExamples.qf0) RefineExamples.f0 ClauseExamples.hc2 ClauseExamples.c2 /\
+  nonneg (seg_of HeapExamples.st0 (q_idx HeapExamples.qf0)) /\ store_fresh 1 0 HeapExamples.st0.
+Proof. exact (conj ClauseExamples.clause_rel_1 (conj ClauseExamples.clause_rel_2 (conj ClauseExamples.nonneg_0 ClauseExamples.fresh_1))). Qed.
+Example C01_clause_example_1 :
+  let '(r, _, st') := run HeapExamples.env0 1 (op_filter ClauseExamples.hc1 HeapExamples.qf0) 0 HeapExamples.st0 in
+  match r with Ok q => option_map Ok (abs1 dec_std st' q) | _ => None end
+  = Some (Filter.frame_filter [] RefineExamples.f0 ClauseExamples.c1).
+Proof. exact ClauseExamples.clause_example_1. Qed.
+Example C01_clause_value_1 :
+  Filter.frame_filter [] RefineExamples.f0 ClauseExamples.c1 = Ok (Frame.with_ix RefineExamples.f0 [1; 3; 2]).
+Proof. exact ClauseExamples.clause_value_1. Qed.
+Example C01_clause_example_2 :
+  let '(r, _, st') := run HeapExamples.env0 1 (op_filter ClauseExamples.hc2 HeapExamples.qf0) 0 HeapExamples.st0 in
+  match r with Ok q => option_map Ok (abs1 dec_std st' q) | _ => None end
+  = Some (Filter.frame_filter [] RefineExamples.f0 ClauseExamples.c2).
+Proof. exact ClauseExamples.clause_example_2. Qed.
+Example C01_clause_value_2 :
+  Filter.frame_filter [] RefineExamples.f0 ClauseExamples.c2 = Ok (Frame.with_ix RefineExamples.f0 [0; 1; 3; 2]).
+Proof. exact ClauseExamples.clause_value_2. Qed.
+Example C01_filtered_apply_clause_example :
+  let '(r, _, st') := run HeapExamples.env0 1 (op_filtered_apply ClauseExamples.hc1 [ApplyExamples.a1] HeapExamples.qf0) 0 HeapExamples.st0 in
+  match r with Ok q => option_map Ok (abs1 dec_std st' q) | _ => None end
+  = Some (Ops.filtered_apply [] [] RefineExamples.f0 ClauseExamples.c1 [FilterExamples.i1]).
+Proof. exact ClauseExamples.filtered_apply_clause_example. Qed.
+
+(*     (e) Leaves with int->float promotion and leaves inverted through a second mask.  The extended link
+           (leaf_link2) keeps the L0 side of leaf_link and replaces the heap side by leaf_heap_ok2: the value ORed
+           into the shared mask for physical row r is the kernel value (custom function = oracle, or built-in
+           predicate) on the cell of the column - of its fresh float copy fcolumn.New(ic.FloatSlice()) when the
+           column is promoted (lf_promote = 1) - and the cell of the argument column - of its float copy when the
+           argument is promoted (lf_promote = 2) -, NEGATED when the leaf is inverted and filter.Inverse has no
+           usable entry (second_mask: the kernel runs non-inverted into a second, fresh mask and
+           `if !x { bIndex[i] = !invIndex[i] }` folds it into the shared one).  leaf_link is the special case. *)
+Theorem C01_leaf_link_link2 env mt st0 m f hl l : leaf_link env mt st0 m f hl l -> leaf_link2 env mt st0 m f hl l.
+Proof. exact (leaf_link_link2 env mt st0 m f hl l). Qed.
+Print Assumptions C01_leaf_link_link2.
+
+(* fcolumn.New(ic.FloatSlice()) allocates ONE fresh array and reads back as the promoted cells; nothing else changes *)
+Theorem C01_promote_step env t st0 base lb c n st arr0 :
+  keeps st0 base -> keeps base st -> lookup base lb = None -> store_fresh t n st ->
+  lookup st lb = Some arr0 -> parts_in_bounds st0 c ->
+  exists c' st1 base1,
+    run env t (promote c) n st = (c', S n, st1) /\ keeps base base1 /\ keeps base1 st1 /\
+    lookup base1 lb = None /\ store_fresh t (S n) st1 /\ lookup st1 lb = Some arr0 /\
+    parts_in_bounds base1 c' /\ forall r, cell_val base1 c' r = prom_cell_val st0 c r.
+Proof. exact (promote_step env t st0 base lb c n st arr0). Qed.
+Print Assumptions C01_promote_step.
+
+(* one leaf step of QFrame.filter (promotion, second mask included): the shared mask gains exactly the rows of P *)
+Theorem C01_leaf_step_mask env t st0 qf lb len hl P n st arr0 rows :
+  lookup st0 lb = None -> in_bounds st0 (q_idx qf) -> s_len (q_idx qf) = len ->
+  Forall (fun e => parts_in_bounds st0 (snd e)) (map_of st0 (q_map qf)) ->
+  (forall l, q_map qf = Some l -> lookup st0 l <> None) ->
+  incl (abs_ix st0 (q_idx qf)) rows ->
+  leaf_heap_ok2 env st0 (q_map qf) rows hl P ->
+  keeps st0 st -> store_fresh t n st -> lookup st lb = Some arr0 -> length arr0 = len ->
+  exists n' st' arr',
+    run env t (leaf_step qf (mkSlice lb 0 len len) hl) n st = (Ok tt, n', st') /\
+    keeps st0 st' /\ store_fresh t n' st' /\ n <= n' /\ lookup st' lb = Some arr' /\ length arr' = len /\
+    map as_b arr' = FilterProofs.mask_or (map as_b arr0) (map P (abs_ix st0 (q_idx qf))).
+Proof. exact (leaf_step_spec2 env t st0 qf lb len hl P n st arr0 rows). Qed.
+Print Assumptions C01_leaf_step_mask.
+
+(* QFrame.filter over a batch of such leaves = Filter.filter_leaves; the by-name map is kept, the new index holds
+   non-negative entries when the old one does *)
+Theorem C01_refines_filter_leaves2 env dec mt t n st qf f i0 hls ls :
+  ref_ok dec st qf -> abs1 dec st qf = Some (Frame.with_ix f i0) -> incl i0 (Frame.ix f) ->
+  store_fresh t n st ->
+  Forall2 (leaf_link2 env mt st (q_map qf) f) hls ls ->
+  exists res n' st',
+    run env t (qf_filter hls qf) n st = (res, n', st') /\ keeps st st' /\ store_fresh t n' st' /\
+    match res with
+    | Ok qf' => ref_ok dec st' qf' /\ q_map qf' = q_map qf /\
+                (nonneg (seg_of st (q_idx qf)) -> nonneg (seg_of st' (q_idx qf'))) /\
+                exists f', Filter.filter_leaves mt (Frame.with_ix f i0) ls = Ok f' /\ abs1 dec st' qf' = Some f'
+    | Panic => Filter.filter_leaves mt (Frame.with_ix f i0) ls = Panic
+    | Fail => False
+    end.
+Proof. exact (refines_filter_leaves2 env dec mt t n st qf f i0 hls ls). Qed.
+Print Assumptions C01_refines_filter_leaves2.
+
+(* the whole clause tree over such leaves (clause_rel2 = clause_rel with leaf_link2; it contains clause_rel) *)
+Theorem C01_clause_rel_rel2 env mt st m f c cl : clause_rel env mt st m f c cl -> clause_rel2 env mt st m f c cl.
+Proof. exact (clause_rel_rel2 env mt st m f c cl). Qed.
+Print Assumptions C01_clause_rel_rel2.
+
+Theorem C01_refines_clause_filter2 env dec mt t n st qf f c cl :
+  ref_ok dec st qf -> abs1 dec st qf = Some f -> store_fresh t n st ->
+  nonneg (seg_of st (q_idx qf)) ->
+  clause_rel2 env mt st (q_map qf) f c cl ->
+  exists res n' st',
+    run env t (op_filter c qf) n st = (res, n', st') /\ keeps st st' /\ store_fresh t n' st' /\
+    match res with
+    | Ok qf' => ref_ok dec st' qf' /\ exists f', Filter.frame_filter mt f cl = Ok f' /\ abs1 dec st' qf' = Some f'
+    | Panic => Filter.frame_filter mt f cl = Panic
+    | Fail => False
+    end.
+Proof. exact (refines_clause_filter2 env dec mt t n st qf f c cl). Qed.
+Print Assumptions C01_refines_clause_filter2.
+
+(* the extended link holds for NOT (A < 25) as an inverted leaf ("<" is an order comparator: second mask on both
+   sides); the relation holds for AND (NOT (A < 25) as a Not clause, NOT (A < 25) as an inverted leaf); computed *)
+Example C01_leaf_link2_holds :
+  second_mask SecondMaskExamples.lfA_inv = true /\
+  leaf_link2 HeapExamples.env0 [] HeapExamples.st0 (q_map HeapExamples.qf0) RefineExamples.f0
+             SecondMaskExamples.lfA_inv SecondMaskExamples.l0A_inv /\
+  clause_rel2 HeapExamples.env0 [] HeapExamples.st0 (q_map HeapExamples.qf0) RefineExamples.f0
+              SecondMaskExamples.hc4 SecondMaskExamples.c4.
+Proof.
+  exact (conj SecondMaskExamples.second_mask_lfA_inv (conj SecondMaskExamples.lfA_inv_link2 SecondMaskExamples.clause_rel2_4)).
+Qed.
+Example C01_clause2_example :
+  let '(r, _, st') := run HeapExamples.env0 1 (op_filter SecondMaskExamples.hc4 HeapExamples.qf0) 0 HeapExamples.st0 in
+  match r with Ok q => option_map Ok (abs1 dec_std st' q) | _ => None end
+  = Some (Filter.frame_filter [] RefineExamples.f0 SecondMaskExamples.c4).
+Proof. exact SecondMaskExamples.clause_example_4. Qed.
+Example C01_clause2_value :
+  Filter.frame_filter [] RefineExamples.f0 SecondMaskExamples.c4 = Ok (Frame.with_ix RefineExamples.f0 [0]).
+Proof. exact SecondMaskExamples.clause_value_4. Qed.
+
+(*     (f) FilteredApply end to end with the extended link, and instantiated with the Apply refinement for ONE user
+           function of one column (C01_refines_apply1): no premise about the Filter step and none about the Apply
+           step is left except the row-wise link between the callback oracle and the L0 function table, asked only
+           for the rows that survive the filter. *)
+Theorem C01_refines_filtered_apply_clause2 env dec mt ut t n st qf f c cl instrs is :
+  ref_ok dec st qf -> abs1 dec st qf = Some f -> store_fresh t n st ->
+  nonneg (seg_of st (q_idx qf)) ->
+  clause_rel2 env mt st (q_map qf) f c cl ->
+  (forall fq ff n1 st1, keeps st st1 -> store_fresh t n1 st1 -> ref_ok dec st1 fq ->
+     Filter.frame_filter mt f cl = Ok ff -> abs1 dec st1 fq = Some ff -> q_err fq = false ->
+     exists ra n2 st2,
+       run env t (op_apply instrs (with_index qf (q_idx fq))) n1 st1 = (ra, n2, st2) /\ keeps st1 st2 /\
+       match ra with
+       | Ok nq => ref_ok dec st2 nq /\
+                  exists r, Ops.apply ut (Frame.with_ix f (Frame.ix ff)) is = Ok r /\ abs1 dec st2 nq = Some r
+       | Panic => Ops.apply ut (Frame.with_ix f (Frame.ix ff)) is = Panic
+       | Fail => False
+       end) ->
+  exists res n' st',
+    run env t (op_filtered_apply c instrs qf) n st = (res, n', st') /\ keeps st st' /\
+    match res with
+    | Ok q' => ref_ok dec st' q' /\ exists r, Ops.filtered_apply mt ut f cl is = Ok r /\ abs1 dec st' q' = Some r
+    | Panic => Ops.filtered_apply mt ut f cl is = Panic
+    | Fail => False
+    end.
+Proof. exact (refines_filtered_apply_clause2 env dec mt ut t n st qf f c cl instrs is). Qed.
+Print Assumptions C01_refines_filtered_apply_clause2.
+
+Theorem C01_refines_filtered_apply1 env dec mt ut t n st qf f c cl a src fn tin tout tbl :
+  dec_apply_ok dec ->
+  ref_ok dec st qf -> abs1 dec st qf = Some f -> store_fresh t n st ->
+  nonneg (seg_of st (q_idx qf)) ->
+  clause_rel2 env mt st (q_map qf) f c cl ->
+  i_src1 a = Some src -> i_src2 a = None -> src <> [] ->
+  i_fn a = FnCall fn (ty_of tout) -> tout <> Frame.TEnum -> i_name_ok a = Ops.check_name (i_dst a) ->
+  (forall c0 d ff, map_get (map_of st (q_map qf)) src = Some c0 -> Frame.lookup_col f src = Some d ->
+                   Filter.frame_filter mt f cl = Ok ff ->
+                   Frame.col_ftype d = tin /\ link1 env st c0 d fn tout tbl (Frame.ix ff)) ->
+  exists res n' st',
+    run env t (op_filtered_apply c [a] qf) n st = (res, n', st') /\ keeps st st' /\
+    match res with
+    | Ok q' => ref_ok dec st' q' /\
+               exists r, Ops.filtered_apply mt ut f cl [Ops.mkInstr (Ops.F1 tin tout tbl) (i_dst a) src []] = Ok r /\
+                         abs1 dec st' q' = Some r
+    | Panic => Ops.filtered_apply mt ut f cl [Ops.mkInstr (Ops.F1 tin tout tbl) (i_dst a) src []] = Panic
+    | Fail => False
+    end.
+Proof. intro Hdec. exact (refines_filtered_apply1 env dec mt Hdec ut t n st qf f c cl a src fn tin tout tbl). Qed.
+Print Assumptions C01_refines_filtered_apply1.
+
+(* its premises hold for the example: Filter hc1 (And / Not / Or tree over A < 25), then x+1 of column A into column B
+   on the surviving rows [1; 3; 2] (the computed run is C01_filtered_apply_clause_example) *)
+Example C01_filtered_apply1_premises_hold :
+  clause_rel2 HeapExamples.env0 [] HeapExamples.st0 (q_map HeapExamples.qf0) RefineExamples.f0 ClauseExamples.hc1 ClauseExamples.c1 /\
+  i_src1 ApplyExamples.a1 = Some HeapExamples.nA /\ i_src2 ApplyExamples.a1 = None /\ HeapExamples.nA <> [] /\
+  i_fn ApplyExamples.a1 = FnCall 1%N (ty_of Frame.TInt) /\ Frame.TInt <> Frame.TEnum /\
+  i_name_ok ApplyExamples.a1 = Ops.check_name (i_dst ApplyExamples.a1) /\
+  (forall c0 d ff, map_get (map_of HeapExamples.st0 (q_map HeapExamples.qf0)) HeapExamples.nA = Some c0 ->
+                   Frame.lookup_col RefineExamples.f0 HeapExamples.nA = Some d ->
+                   Filter.frame_filter [] RefineExamples.f0 ClauseExamples.c1 = Ok ff ->
+                   Frame.col_ftype d = Frame.TInt /\
+                   link1 HeapExamples.env0 HeapExamples.st0 c0 d 1%N Frame.TInt ApplyExamples.tblA (Frame.ix ff)).
+Proof. exact FilteredApplyExamples.filtered_apply1_premises. Qed.
+
+(* heap side of the link for a PROMOTED leaf (column A promoted, argument column A, kernel x + y < 50) and its run:
+   mask, float copy and new index are the three allocations, the old arrays are unchanged.  (No L0 leaf is linked
+   to it here: qframe promotes only int-vs-float pairs and the example frame has one int column.) *)
+Example C01_promoted_leaf_heap_ok :
+  leaf_heap_ok2 HeapExamples.env0 HeapExamples.st0 (q_map HeapExamples.qf0) (Frame.ix RefineExamples.f0) PromoteExamples.lfP FilterExamples.PA.
+Proof. exact PromoteExamples.lfP_heap_ok. Qed.
+Example C01_promoted_leaf_run :
+  let '(r, n', st') := run HeapExamples.env0 1 (qf_filter [PromoteExamples.lfP] HeapExamples.qf0) 0 HeapExamples.st0 in
+  (match r with Ok q => Some (abs_ix st' (q_idx q)) | _ => None end, n', map (lookup st') [(0, 0); (0, 3); (1, 1)])
+  = (Some [1; 3; 2], 3, [lookup HeapExamples.st0 (0, 0); lookup HeapExamples.st0 (0, 3); Some [VZ 30; VZ 10; VZ 5; VZ 20]]).
+Proof. exact PromoteExamples.lfP_run. Qed.
